@@ -42,13 +42,23 @@ Verdict15(o, j) ==
   LET L == Live15(o.sessions, o.created)
       f == Fails15(o.sessions, L, o.cr, o.node)
            \cup Agreement(o.sessions, L \cap Live14(o.sessions), o.prog, o.cr)
-           \cup If(SameSet(j) => Trace[j - 1].sha = o.sha, "C15.Deterministic")
+           \* (the driver puts the orders that produced no resource at all, possible when every session of the set was
+           \*  refused, in front of the others)
+           \cup If((SameSet(j) /\ Trace[j - 1].cr.present /\ o.cr.present) => Trace[j - 1].sha = o.sha, "C15.Deterministic")
   IN [fails |-> f,
       info  |-> IF f = {} THEN [errs |-> <<>>]
                 ELSE [errs |-> o.errs, created |-> o.created,
                       detail |-> UNION {{<<o.sessions[k].k, n>> : n \in SessionFails15(o.cr, o.sessions[k])} : k \in L}]]
 
-LineVerdict(j) == IF Trace[j].mode = "frr" THEN Verdict14(Trace[j], j) ELSE Verdict15(Trace[j], j)
+(* mode "pw": one call of the speaker's passwordForSession *)
+VerdictPw(o) ==
+  LET f == IF o.panic # "" THEN {"C15.Password.Panic"} ELSE PwFails(o.case, o.password, o.secret) IN
+  [fails |-> f, info |-> [errs |-> <<o.panic>>]]
+
+LineVerdict(j) ==
+  IF Trace[j].mode = "frr" THEN Verdict14(Trace[j], j)
+  ELSE IF Trace[j].mode = "pw" THEN VerdictPw(Trace[j])
+  ELSE Verdict15(Trace[j], j)
 
 Init == i = 1
 Next == i < N /\ i' = i + 1
